@@ -32,11 +32,20 @@
 (*           _connect/_schedule_connect refuse to work when closed         *)
 (*   F_CAP   a message whose write is in progress still counts towards the *)
 (*           queue capacity (it returns to the queue if the write fails)   *)
+(*   F_CLOCK the drain reads the clock for every entry (FALSE: once before *)
+(*           the loop - not a defect of the pinned tree; kept to show that *)
+(*           the stall model exercises the expiry clause)                  *)
+(*                                                                         *)
+(* Stalls = TRUE adds back-pressure: the console stops reading, the        *)
+(* transport pauses the protocol (immediately, or with the next write),    *)
+(* drain() suspends its callers until the stall ends or the connection     *)
+(* does (a lost connection fails them, a connection closed by the client   *)
+(* lets them return normally - asyncio FlowControlMixin.connection_lost).  *)
 (***************************************************************************)
 EXTENDS Naturals, Integers, Sequences, FiniteSets, FiniteSetsExt, TLC, TLCExt
 
 CONSTANTS MaxConn, MaxTask, MaxMsg, MaxEnv, H, ConnSubs, MsgSubs, SubSends, QCap,
-          F_ENQ, F_DRAIN, F_ONE, F_CLOSE, F_CAP, Record, Kinds, Policies
+          F_ENQ, F_DRAIN, F_ONE, F_CLOSE, F_CAP, F_CLOCK, Stalls, Record, Kinds, Policies
 
 C == INSTANCE SocketContract WITH QMAX <- QCap
 
@@ -53,6 +62,7 @@ T(kind, pc, arg) == [kind |-> kind, pc |-> pc, stk |-> <<>>, arg |-> arg, hops |
 S0 == [isOpen |-> FALSE, isConn |-> FALSE, reader |-> None, writer |-> None, queue |-> <<>>,
        connTask |-> None, inflight |-> 0,
        conn |-> <<>>, lostDone |-> <<>>, rx |-> <<>>, eof |-> <<>>, fault |-> <<>>,
+       stalled |-> <<>>, armStall |-> <<>>,
        task |-> <<>>, ready |-> <<>>, running |-> None, batch |-> 0,
        now |-> 0, nmsg |-> 0, nenv |-> 0, iters |-> 0, calls |-> 0]
 
@@ -126,6 +136,10 @@ Notify(s, b) == IF ConnSubs THEN <<Ev(s, [e |-> "notify", t |-> 0, connected |->
 
 -----------------------------------------------------------------------------
 \* One code segment of task t.  Returns a SET of results [s, out].
+\* the connection ends: whatever its send buffer held is gone, nothing is stalled any more
+EndStallEv(s, w) == IF s.stalled[w] THEN <<Ev(s, [e |-> "unstall", t |-> 0, c |-> w - 1, ended |-> TRUE])>> ELSE <<>>
+DrainWaiters(s, c) == {t \in Tasks(s) : s.task[t].pc = "Rdrain" /\ s.task[t].arg.w = c}
+
 Seg(s, t) ==
   LET me == s.task[t]
       pc == me.pc
@@ -153,8 +167,9 @@ Seg(s, t) ==
         IF s.writer # None
         THEN LET w  == s.writer
                  cl == s.conn[w] \in {"up", "half"}
-                 s1 == IF cl THEN [s EXCEPT !.conn[w] = "cclosed", !.ready = Append(@, <<"lost", w>>)] ELSE s
-                 o  == IF cl THEN <<Ev(s, [e |-> "cclose", t |-> 0, c |-> w - 1])>> ELSE <<>>
+                 s1 == IF cl THEN [s EXCEPT !.conn[w] = "cclosed", !.ready = Append(@, <<"lost", w>>),
+                                            !.stalled[w] = FALSE, !.armStall[w] = FALSE] ELSE s
+                 o  == IF cl THEN EndStallEv(s, w) \o <<Ev(s, [e |-> "cclose", t |-> 0, c |-> w - 1])>> ELSE <<>>
              IN IF s1.lostDone[w]
                 THEN { R(r, o) : r \in Hops(s1, t, "D1") }          \* shield(): at least one turn
                 ELSE { R(Stop([s1 EXCEPT !.task[t].pc = "D0wait", !.task[t].arg = w]), o) }
@@ -173,6 +188,7 @@ Seg(s, t) ==
         ELSE LET c  == NC(s) + 1
                  s1 == [s EXCEPT !.conn = Append(@, "pending"), !.lostDone = Append(@, FALSE),
                                  !.rx = Append(@, <<>>), !.eof = Append(@, FALSE), !.fault = Append(@, FALSE),
+                                 !.stalled = Append(@, FALSE), !.armStall = Append(@, FALSE),
                                  !.task[t].pc = "K2wait", !.task[t].arg = c]
              IN {R(Stop(s1), <<Ev(s, [e |-> "attempt", t |-> 0, c |-> c - 1])>>)}
   [] pc = "K3" ->          \* open_connection returned: arg = connection
@@ -214,14 +230,16 @@ Seg(s, t) ==
   [] pc = "Sexc" -> {R(Done(s, t), <<RetSend(s, t, "error")>>)}
   \* ------------------------------------------------------------ _drain_message_queue
   [] pc = "R0" ->
-        IF ~s.isConn THEN {R(Cont(Ret(s, t), t), <<>>)} ELSE {R(Cont(SetPc(s, t, "R0l"), t), <<>>)}
+        IF ~s.isConn THEN {R(Cont(Ret(s, t), t), <<>>)}
+        ELSE {R(Cont(SetPc([s EXCEPT !.task[t].wake = s.now], t, "R0l"), t), <<>>)}
   [] pc = "R0l" ->
         IF s.queue = <<>> THEN {R(Cont(Ret(s, t), t), <<>>)} ELSE {R(Cont(SetPc(s, t, "R1"), t), <<>>)}
   [] pc = "R1" ->          \* pop; expiry check; _write
         LET q  == Head(s.queue)
             s1 == [s EXCEPT !.queue = Tail(@)]
             w  == s.writer
-        IN IF s.now >= q.expiry THEN {R(Cont(SetPc(s1, t, "R0l"), t), <<>>)}
+            clk == IF F_CLOCK THEN s.now ELSE me.wake
+        IN IF clk >= q.expiry THEN {R(Cont(SetPc(s1, t, "R0l"), t), <<>>)}
            ELSE IF q.kind = "bad" \/ w = None
            THEN IF F_DRAIN THEN {R(Cont(SetPc(s1, t, "R0l"), t), <<>>)}
                 ELSE \* struct.error escapes the drain and whoever called it
@@ -233,12 +251,22 @@ Seg(s, t) ==
                     tx   == Ev(s, [e |-> "txframe", t |-> 0, c |-> w - 1, ok |-> TRUE, alts |-> <<q.m>>,
                                    failed |-> ~good, nw |-> IF good THEN 1 ELSE 0,
                                    to |-> 128, from |-> 176, pid |-> 0, type |-> 44])
-                IN IF good THEN {R(Cont(SetPc(s1, t, "R0l"), t), <<tx>>)}
+                IN IF good
+                   THEN \* the write that fills the send buffer pauses the protocol from inside write();
+                        \* drain() then suspends until resume_writing() or connection_lost()
+                        LET trig == s.armStall[w] /\ ~s.stalled[w]
+                            s2   == IF trig THEN [s1 EXCEPT !.stalled[w] = TRUE, !.armStall[w] = FALSE] ELSE s1
+                            o    == (IF trig THEN <<Ev(s, [e |-> "stall", t |-> 0, c |-> w - 1])>> ELSE <<>>) \o <<tx>>
+                        IN IF s2.stalled[w]
+                           THEN {R(Stop([s2 EXCEPT !.task[t].pc = "Rdrain", !.task[t].arg = [q |-> q, w |-> w],
+                                                   !.inflight = @ + 1]), o)}
+                           ELSE {R(Cont(SetPc(s2, t, "R0l"), t), o)}
                    ELSE LET hit == s.conn[w] \in {"up", "half"}       \* the armed fault fires now
                             s2  == IF hit THEN [s1 EXCEPT !.conn[w] = "lost", !.fault[w] = FALSE,
+                                                          !.stalled[w] = FALSE, !.armStall[w] = FALSE,
                                                           !.ready = Append(@, <<"lost", w>>)]
                                    ELSE s1
-                            o   == IF hit THEN <<tx, Ev(s, [e |-> "lost", t |-> 0, c |-> w - 1])>> ELSE <<tx>>
+                            o   == IF hit THEN <<tx>> \o EndStallEv(s, w) \o <<Ev(s, [e |-> "lost", t |-> 0, c |-> w - 1])>> ELSE <<tx>>
                         IN \* drain(): sleep(0), then ConnectionResetError
                            {R(Stop([s2 EXCEPT !.task[t].pc = "Roserr", !.task[t].arg = q,
                                               !.inflight = @ + 1,
@@ -249,6 +277,8 @@ Seg(s, t) ==
             s1 == IF q.retries = 0 THEN s0
                   ELSE [s0 EXCEPT !.queue = <<[q EXCEPT !.retries = @ - 1]>> \o @]
         IN {R(Cont(Push(s1, t, "Rret", "X0"), t), <<>>)}
+  [] pc = "Rdrained" ->    \* drain() returned: the write is complete
+        {R(Cont(SetPc([s EXCEPT !.inflight = @ - 1], t, "R0l"), t), <<>>)}
   [] pc = "Rret" -> {R(Cont(Ret(s, t), t), <<>>)}
   \* ------------------------------------------------------------ _read
   [] pc = "L0" ->
@@ -311,12 +341,17 @@ RunTask ==
                 LET c  == h[2]
                     cw == ClosedWaiters(S, c)
                     dw == DataWaiters(S, c)
+                    \* suspended drain() calls: the exception of a lost link, a normal return after close()
+                    rw == DrainWaiters(S, c)
                     s2 == [s1 EXCEPT !.lostDone[c] = TRUE,
                                      !.task = [t \in Tasks(S) |->
                                         IF t \in cw THEN [S.task[t] EXCEPT !.pc = "D0hop"]
                                         ELSE IF t \in dw THEN [S.task[t] EXCEPT !.pc = "L1"]
+                                        ELSE IF t \in rw
+                                        THEN IF S.conn[c] = "lost" THEN [S.task[t] EXCEPT !.pc = "Roserr", !.arg = @.q]
+                                             ELSE [S.task[t] EXCEPT !.pc = "Rdrained"]
                                         ELSE S.task[t]],
-                                     !.ready = @ \o Handles(cw \cup dw)]
+                                     !.ready = @ \o Handles(cw \cup dw \cup rw)]
                 IN Apply(R(s2, <<>>))
            ELSE LET t == h[2]
                 IN IF S.task[t].pc = "done" THEN Apply(R(s1, <<>>))
@@ -401,8 +436,8 @@ Feed(good) ==
 PeerReset ==
   \E c \in Cn(S) :
     /\ S.conn[c] \in {"up", "half"}
-    /\ EnvStep([S EXCEPT !.conn[c] = "lost", !.ready = Append(@, <<"lost", c>>)],
-               <<Ev(S, [e |-> "lost", t |-> 0, c |-> c - 1])>>, [op |-> "peer_reset", c |-> c - 1])
+    /\ EnvStep([S EXCEPT !.conn[c] = "lost", !.ready = Append(@, <<"lost", c>>), !.stalled[c] = FALSE, !.armStall[c] = FALSE],
+               EndStallEv(S, c) \o <<Ev(S, [e |-> "lost", t |-> 0, c |-> c - 1])>>, [op |-> "peer_reset", c |-> c - 1])
 
 PeerEof ==
   \E c \in Cn(S) :
@@ -418,6 +453,27 @@ ArmFault ==
     /\ S.conn[c] \in {"up", "half"} /\ ~S.fault[c]
     /\ EnvStep([S EXCEPT !.fault[c] = TRUE], <<>>, [op |-> "arm_fault", c |-> c - 1])
 
+\* back-pressure: the console stops reading now / the next write fills the buffer / it reads again
+Stall ==
+  \E c \in Cn(S) :
+    /\ Stalls /\ S.conn[c] \in {"up", "half"} /\ ~S.stalled[c]
+    /\ EnvStep([S EXCEPT !.stalled[c] = TRUE, !.armStall[c] = FALSE],
+               <<Ev(S, [e |-> "stall", t |-> 0, c |-> c - 1])>>, [op |-> "pause", c |-> c - 1])
+
+ArmStall ==
+  \E c \in Cn(S) :
+    /\ Stalls /\ S.conn[c] \in {"up", "half"} /\ ~S.stalled[c] /\ ~S.armStall[c]
+    /\ EnvStep([S EXCEPT !.armStall[c] = TRUE], <<>>, [op |-> "arm_pause", c |-> c - 1])
+
+Unstall ==
+  \E c \in Cn(S) :
+    /\ Stalls /\ S.stalled[c]
+    /\ LET rw == DrainWaiters(S, c)
+       IN EnvStep([S EXCEPT !.stalled[c] = FALSE,
+                            !.task = [t \in Tasks(S) |-> IF t \in rw THEN [S.task[t] EXCEPT !.pc = "Rdrained"] ELSE S.task[t]],
+                            !.ready = @ \o Handles(rw)],
+                  <<Ev(S, [e |-> "unstall", t |-> 0, c |-> c - 1, ended |-> FALSE])>>, [op |-> "resume", c |-> c - 1])
+
 \* a checkpoint of the contract: the loop has nothing left to do
 Checkpoint ==
   /\ Quiet(S) /\ S.nenv > 0
@@ -429,6 +485,7 @@ Env == \/ CallOpen \/ CallClose \/ CallReset
        \/ \E dt \in Dts : Tick(dt)
        \/ TickToTimer
        \/ Feed(TRUE) \/ Feed(FALSE) \/ PeerReset \/ PeerEof \/ ArmFault
+       \/ Stall \/ ArmStall \/ Unstall
        \/ Checkpoint
 
 Next == StartIter \/ RunTask \/ Env
@@ -446,8 +503,9 @@ AtMostOne == Cardinality(Up(S)) <= 1
 \* at quiescence an open socket holds no connection other than its current one
 AbandonedClosed == Quiet(S) => \A c \in Up(S) : c = S.writer
 
-\* connected and quiet => some read task is waiting on the current reader (not deaf)
-NoWedge == (Quiet(S) /\ S.isOpen /\ S.isConn /\ S.writer # None /\ S.conn[S.writer] = "up")
+\* connected and quiet => some read task is waiting on the current reader (not deaf); while the
+\* console does not read, _connect may be held in its initial drain, before it starts the read task
+NoWedge == (Quiet(S) /\ S.isOpen /\ S.isConn /\ S.writer # None /\ S.conn[S.writer] = "up" /\ ~S.stalled[S.writer])
              => \E t \in Tasks(S) : S.task[t].pc = "L1wait" /\ S.task[t].arg = S.reader
 
 \* open, quiet, nothing in flight => either connected or a (re)connection is on its way
